@@ -53,6 +53,42 @@ from doctrans.pure_utils import (
 from doctrans.source_transformer import to_code
 
 
+def _own_copy(intermediate_repr):
+    """
+    A copy of the IR which an emitter is free to edit.
+    The caller's IR (often shared between several emitters) must not be altered
+
+    :param intermediate_repr: the caller's IR
+    :type intermediate_repr: ```dict```
+
+    :returns: copy of the IR, sharing with the caller's nothing but values which cannot be copied
+    :rtype: ```dict```
+    """
+
+    def copy_of(value):
+        """
+        :param value: an IR, or anything found in one
+        :type value: ```Any```
+
+        :returns: copy of `value`; `value` itself only if it is a leaf that cannot be copied
+        :rtype: ```Any```
+        """
+        if isinstance(value, dict):
+            return type(value)((key, copy_of(val)) for key, val in value.items())
+        elif type(value) in (list, tuple):
+            return type(value)(map(copy_of, value))
+        try:
+            return deepcopy(value)
+        except TypeError:
+            # A default read off a live object (an open stream, a lock, a module); referred to, never edited
+            return value
+
+    try:
+        return deepcopy(intermediate_repr)
+    except TypeError:
+        return copy_of(intermediate_repr)
+
+
 def argparse_function(
     intermediate_repr,
     emit_default_doc=False,
@@ -95,8 +131,7 @@ def argparse_function(
     :returns:  AST node for function definition which constructs argparse
     :rtype: ```FunctionDef```
     """
-    # The caller's IR (often shared between several emitters) must not be altered
-    intermediate_repr = deepcopy(intermediate_repr)
+    intermediate_repr = _own_copy(intermediate_repr)
     function_name = function_name or intermediate_repr["name"]
     function_type = function_type or intermediate_repr["type"]
     internal_body = get_internal_body(
@@ -350,8 +385,7 @@ def class_(
     :returns: Class AST of the docstring
     :rtype: ```ClassDef```
     """
-    # The caller's IR (often shared between several emitters) must not be altered
-    intermediate_repr = deepcopy(intermediate_repr)
+    intermediate_repr = _own_copy(intermediate_repr)
     returns = (
         intermediate_repr["returns"]
         if "return_type" in ((intermediate_repr or {}).get("returns") or iter(()))
@@ -480,8 +514,7 @@ def docstring(
     :returns: docstring
     :rtype: ```str```
     """
-    # The caller's IR (often shared between several emitters) must not be altered
-    intermediate_repr = deepcopy(intermediate_repr)
+    intermediate_repr = _own_copy(intermediate_repr)
     return "\n{doc}\n\n{nl0}{params}\n{returns}\n{nl1}".format(
         doc=(fill if word_wrap else identity)(intermediate_repr["doc"]),
         nl0="" if docstring_format == "rest" else "\n",
@@ -641,8 +674,7 @@ def function(
     :returns: AST node for function definition
     :rtype: ```FunctionDef```
     """
-    # The caller's IR (often shared between several emitters) must not be altered
-    intermediate_repr = deepcopy(intermediate_repr)
+    intermediate_repr = _own_copy(intermediate_repr)
     params_no_kwargs = tuple(
         filter(
             lambda param: not param[0].endswith("kwargs"),
